@@ -34,6 +34,7 @@ type Config struct {
 	SpecBudget    int
 	ItemCap       int
 	Live          string
+	NoMergeIn     map[string]bool
 }
 
 type Engine struct {
@@ -58,8 +59,12 @@ type Engine struct {
 	redirects map[string]string
 	ackApps   map[string][]ackApp
 	mergeStat map[*ssa.If]*mergeStat
+	validCache map[string]bool
+	assertSeen map[int]bool
 	axioms    []*Term
 }
+
+var forkLog = os.Getenv("VP_FORKLOG") != ""
 
 type pathDead struct{ why string }
 type abortSpec struct{ why string }
@@ -69,7 +74,7 @@ func NewEngine(prog *ssa.Program, pkg *ssa.Package, solver *Solver, cfg Config) 
 	e := &Engine{prog: prog, pkg: pkg, solver: solver, cfg: cfg,
 		infos: map[*ssa.Function]*fnInfo{}, inputs: map[string]*Term{}, inputKind: map[string]string{},
 		funcs: map[string]bool{}, intrUsed: map[string]bool{}, inits: map[*ssa.Package]bool{},
-		ackApps: map[string][]ackApp{}}
+		ackApps: map[string][]ackApp{}, validCache: map[string]bool{}, assertSeen: map[int]bool{}}
 	e.sizes = types.SizesFor("gc", "amd64")
 	e.strType = types.Typ[types.String]
 	e.errType = types.Universe.Lookup("error").Type()
@@ -222,7 +227,7 @@ func (e *Engine) feas(st *State, c *Term) (t, f bool, mT, mF Model) {
 		}
 	}
 	if !tKnown {
-		r, m := e.solver.CheckBase(st.PC, c, e.cfg.FeasTimeoutMs, true, st.Model)
+		r, m := e.solver.CheckBase(st.feasPC(), c, e.cfg.FeasTimeoutMs, true, st.Model)
 		switch r {
 		case Sat:
 			t, mT = true, m
@@ -234,7 +239,7 @@ func (e *Engine) feas(st *State, c *Term) (t, f bool, mT, mF Model) {
 		}
 	}
 	if !fKnown {
-		r, m := e.solver.CheckBase(st.PC, Not(c), e.cfg.FeasTimeoutMs, true, st.Model)
+		r, m := e.solver.CheckBase(st.feasPC(), Not(c), e.cfg.FeasTimeoutMs, true, st.Model)
 		switch r {
 		case Sat:
 			f, mF = true, m
@@ -281,8 +286,13 @@ func (e *Engine) fork(st *State, c *Term, mT, mF Model) {
 	cl.Model = mF
 	cl.Depth++
 	st.Depth++
+	cl.NBranch++
+	st.NBranch++
 	e.work = append(e.work, cl)
 	e.res.Forks++
+	if forkLog {
+		fmt.Fprintf(os.Stderr, "FORK%s\n", e.where(st))
+	}
 	st.Assume(c)
 	if mT != nil {
 		st.Model = mT
@@ -308,7 +318,7 @@ func (e *Engine) concretize(st *State, t *Term, what string) uint64 {
 			}
 		}
 		if st.Model == nil {
-			r, m := e.solver.Check(st.PC, nil, e.cfg.FeasTimeoutMs, true)
+			r, m := e.solver.Check(st.feasPC(), nil, e.cfg.FeasTimeoutMs, true)
 			if r == Unsat {
 				panic(pathDead{"infeasible"})
 			}
@@ -706,9 +716,14 @@ func (e *Engine) branch(st *State, fr *Frame, x *ssa.If) {
 	cl.Model = mF
 	cl.Depth++
 	st.Depth++
+	cl.NBranch++
+	st.NBranch++
 	e.jump(cl, cl.top(), succ[1])
 	e.work = append(e.work, cl)
 	e.res.Forks++
+	if forkLog {
+		fmt.Fprintf(os.Stderr, "FORK%s\n", e.where(st))
+	}
 	st.Assume(c)
 	if mT != nil {
 		st.Model = mT
